@@ -704,8 +704,12 @@ def one_mal(r, tier, kind):
     conn, sndmax, sndfail, cancel, early = 0, 0, "-", "-", 0
     if kind == "cancel" and not generic:
         hi = st.length + 3
+        # line ends of the stream (status line, header lines, end of the header block, chunk-size lines, chunk ends):
+        # with bytewise delivery the j-th recv() returns byte j, so r<offset> cancels right there
+        small = bytes(st.small)
+        ends = [i + 2 + d for i in range(len(small)) if small[i:i + 2] == b"\r\n" for d in (-1, 0, 1)] or [1]
         cancel = r.choice(["%d" % r.range(0, min(hi, 60)), "%d" % r.range(0, hi), "r%d" % r.range(1, min(hi, 40)),
-                           "r%d" % r.range(1, hi + 2)])
+                           "r%d" % r.range(1, hi + 2), "r%d" % max(1, r.choice(ends)), "r%d" % max(1, r.choice(ends[-9:]))])
         early = r.weighted([(0, 5), (1, 1)])
         sndmax = r.choice([0, 0, 1, 7])
         conn = r.weighted([(0, 8), (1, 1)])
@@ -757,9 +761,9 @@ def gen_mal(rng, tier, mult):
             cases.append(ops)
     # http_request_cancel at every point of a few small responses: after every recv() (between any two segments)
     # and right after every wait
-    for ti in range((2 if tier == "quick" else 12) * mult):
+    for ti in range((3 if tier == "quick" else 12) * mult):
         r = rng.fork("cancel%d" % ti)
-        data, framing, n = small_valid(r, bodylen=r.range(1, 30))
+        data, framing, n = small_valid(r, framing=["chunked", "length", "close"][ti % 3], bodylen=r.range(2, 30))
         if libc_unspecified(data):
             continue
         req = gen_request(r, want_head=False)
